@@ -55,6 +55,9 @@ def render (new : State) : String :=
     ++ " ph=" ++ showPhase new.phase ++ " paused=" ++ (if new.pending = .none then "0" else "1")
     ++ " q=" ++ toString new.queue.length ++ " n=" ++ toString new.flowMessages.length
     ++ " live=" ++ (if new.live then "1" else "0") ++ " err=" ++ (if new.error then "1" else "0")
+    -- the CONTENTS of `flow.messages` (direction + bytes of every message, the one whose hook is pending included)
+    ++ " m=" ++ (if new.flowMessages.isEmpty then "-" else
+        ",".intercalate (new.flowMessages.map fun m => (if m.fromClient then "c" else "s") ++ ":" ++ showBytes m.content))
 
 def stepLine (st : State) (line : String) : State × String :=
   match fields line with
